@@ -142,6 +142,37 @@ func main() {
 	sc := bufio.NewScanner(os.Stdin)
 	sc.Buffer(make([]byte, 1<<20), 1<<28)
 	w := bufio.NewWriter(os.Stdout)
+	par := 1
+	if v := os.Getenv("FRONTDUMP_PAR"); v != "" {
+		fmt.Sscan(v, &par)
+	}
+	if par > 1 {
+		// independent trees compiled concurrently in one process (C09): groups of `par` goroutines
+		var reqs []request
+		for sc.Scan() {
+			var req request
+			if err := json.Unmarshal(sc.Bytes(), &req); err == nil {
+				reqs = append(reqs, req)
+			}
+		}
+		for i := 0; i < len(reqs); i += par {
+			j := min(i+par, len(reqs))
+			out := make([]response, j-i)
+			done := make(chan bool, j-i)
+			for k := i; k < j; k++ {
+				go func(k int) { out[k-i] = handle(reqs[k]); done <- true }(k)
+			}
+			for k := i; k < j; k++ {
+				<-done
+			}
+			for _, r := range out {
+				js, _ := json.Marshal(r)
+				fmt.Fprintf(w, "RESP %s\n", js)
+			}
+			w.Flush()
+		}
+		return
+	}
 	for sc.Scan() {
 		var req request
 		if err := json.Unmarshal(sc.Bytes(), &req); err != nil {
